@@ -9,7 +9,7 @@
    jdump_grid) is not proved; it is covered by the correspondence + search. *)
 From Coq Require Import String List.
 Import ListNotations.
-From HS Require Import Base.Prelude Gen.JsonData Model.Value Model.Json Proofs.JsonP.
+From HS Require Import Base.Prelude Gen.JsonData Model.Value Model.Version Model.Json Proofs.JsonP Proofs.JsonGridP.
 Open Scope N_scope.
 
 (* text kinds: ANY payload, no hypothesis *)
@@ -88,6 +88,53 @@ Proof. exact nested_roundtrip. Qed.
    comes back as itself *)
 Theorem C02_nested_plain : forall n v fuel j, plain n v -> jdump fuel false v = Ok j -> jparse fuel false j = Ok v.
 Proof. intros n v fuel j. exact (plain_roundtrip n v fuel j). Qed.
+(* WHOLE GRIDS: for every grid of a 3.0-family version (ver_ok), with distinct metadata tags (none called ver), distinct
+   column names, per column distinct metadata tags (none called name), rows holding one cell per column in column order -
+   if every metadata value and every cell round-trips on its own (item_rt: what the writer makes of it, the reader turns
+   back into it), then the JSON object written for the grid is read back as exactly that grid.  By induction over
+   metadata, columns, rows and cells. *)
+Theorem C02_grid : forall f g ver meta cols rows j,
+  ver_ok ver -> cols <> [] ->
+  NoDup (map fst meta) -> ~ In VER (map fst meta) -> Forall (fun kv => item_rt f g false (snd kv)) meta ->
+  NoDup (map fst cols) -> Forall (col_ok f g false) cols -> Forall (row_ok f g false cols) rows ->
+  jdump_grid (S f) ver meta cols rows = Ok j ->
+  exists m, j = JObj m /\ jparse_grid (S g) m = Ok (VGrid ver meta cols rows).
+Proof. exact json_grid_roundtrip. Qed.
+(* in particular for grids all of whose values are trees of lists and dicts over strings, URIs, Bins, markers, nulls,
+   booleans, NA, Remove (plain n), to any depth n *)
+Theorem C02_plain_grid : forall n f ver meta cols rows j,
+  ver_ok ver -> cols <> [] ->
+  NoDup (map fst meta) -> ~ In VER (map fst meta) -> plain_items n meta ->
+  NoDup (map fst cols) -> Forall (plain_col n) cols -> Forall (plain_row n cols) rows ->
+  jdump_grid (S f) ver meta cols rows = Ok j ->
+  exists m, j = JObj m /\ jparse_grid (S f) m = Ok (VGrid ver meta cols rows).
+Proof. exact json_plain_grid_roundtrip. Qed.
+(* rows given as one value per column are canonical *)
+Theorem C02_rows_canonical : forall (cols : list (str * list (str * hval))) cells,
+  NoDup (map fst cols) -> length cells = length cols -> canon_row cols (combine (map fst cols) cells).
+Proof. exact canon_combine. Qed.
+(* non-vacuity: a concrete grid with metadata, column metadata and nested cells meets the hypotheses and round-trips *)
+Example C02_grid_nonvacuous :
+  let meta := [(s_ "dis", VStr (s_ "site")); (s_ "tags", VList [VMarker; VNA])] in
+  let cols := [(s_ "a", [(s_ "unit", VStr (s_ "kW"))]); (s_ "b", [])] in
+  let rows := [[(s_ "a", VStr (s_ "x")); (s_ "b", VDict [(s_ "k", VUri (s_ "u"))])]; [(s_ "a", VNull); (s_ "b", VBool true)]] in
+  exists m, jdump_grid 9 (s_ "3.0") meta cols rows = Ok (JObj m) /\ jparse_grid 9 m = Ok (VGrid (s_ "3.0") meta cols rows).
+Proof.
+  intros meta cols rows.
+  assert (Ex : exists j, jdump_grid 9 (s_ "3.0") meta cols rows = Ok j) by (eexists; vm_compute; reflexivity).
+  destruct Ex as [j E].
+  destruct (C02_plain_grid 4 8 (s_ "3.0") meta cols rows j) as [m [Ej Hm]]; try exact E.
+  - eexists. split; [vm_compute; reflexivity|]. split; vm_compute; reflexivity.
+  - discriminate.
+  - repeat constructor; vm_compute; intuition discriminate.
+  - vm_compute. intuition discriminate.
+  - repeat constructor.
+  - repeat constructor; vm_compute; intuition discriminate.
+  - repeat constructor; try (vm_compute; intuition discriminate).
+  - repeat constructor; try (vm_compute; intuition discriminate).
+  - subst j. exists m. split; [exact E|exact Hm].
+Qed.
+
 Example C02_nested_applies :
   plain 4 (VList [VStr (s_ "a"); VDict [(s_ "k", VList [VMarker; VUri (s_ "u")]); (s_ "meta", VNA)]; VList []]).
 Proof.
@@ -95,3 +142,6 @@ Proof.
   - intros [E|[]]. vm_compute in E. discriminate E.
   - intros [].
 Qed.
+Print Assumptions C02_grid.
+Print Assumptions C02_plain_grid.
+Print Assumptions C02_rows_canonical.
